@@ -108,6 +108,8 @@ def val(n):
         return ("M", mset(val(c) for c in n))
     if isinstance(n, graphtage.ListNode):
         return ("L", tuple(val(c) for c in n))
+    if type(n).__name__ == "CyclicReference":
+        return ("CYCLE-PLACEHOLDER",)
     if isinstance(n, graphtage.LeafNode):
         return canon(n.object)
     ch = n.children()
